@@ -12,7 +12,7 @@ var logic string
 func Family() *rx.Family {
 	return &rx.Family{
 		Name: "s2", Path: "gno.land/r/verif/s2", Logic: logic,
-		Ops: "abcdfghiejkl",
+		Ops: "afcdbgehijkl",
 		Desc: map[byte]string{'a': "p.V++", 'b': "q.V+=10", 'c': "arr[1].V+=100", 'd': "p=&arr[2]", 'e': "q=p", 'f': "cp=arr", 'g': "arr=cp",
 			'h': "p=&cp[0]", 'i': "arr[0]=T{fresh}", 'j': "p,q=q,p", 'k': "p=nil", 'l': "q=&T{fresh}"},
 		Reset: reset, Op: op, Dump: dump,
